@@ -1,7 +1,8 @@
 """C10 — bounded stand-in on temporary trees (runtime/h_fs.py)."""
 ID = "C10"
 LEVEL = "exploration"
-FUNCTIONS = []
+FUNCTIONS = ['codelimit.commands.scan:_read_cached_report']
+BOUNDED_SKIP = ['codelimit.commands.scan:_read_cached_report']
 TRUSTED = ["the file system of the sandbox; Pygments; pathspec"]
 ASSUMPTIONS = []
 BOUND = 'cache faults on a 2-file project: missing, empty, non-JSON, JSON list/null/number, directory without file / without markers, truncation at every 9th byte offset (thorough: every offset), 80 structural faults (missing key / wrong type at every level; thorough: all ~1300)'
